@@ -9,7 +9,7 @@ import plans
 ROOT = os.path.dirname(os.path.abspath(__file__))
 
 HOOK_COMMITS = subprocess.run(
-    ["git", "-C", "/repo", "log", "--format=%h %s", "--grep=^verif hook"], stdout=subprocess.PIPE, text=True
+    ["git", "-C", "/repo", "log", "--format=%h %s", "--grep=^verif hook", "--grep=uncommitted hook changes"], stdout=subprocess.PIPE, text=True
 ).stdout.strip().splitlines()
 
 # Per property: technique, level text, level note, design section.
